@@ -191,6 +191,46 @@ func c03ExprCase(e *emitter, expr string, mode int, chunk [][2]string, bucket st
 	}
 	idx := e.add(fmt.Sprintf("CaseE %s %s %s", term, coqObsRows(chunk, obs), coqBobs(vals, berr, bpn, len(chunk))), rp, true)
 	e.count(bucket)
+	if bad == "" && mode == 0 && len(chunk) > 0 {
+		// the plans run the FOLDED tree: batch evaluation of the folded tree against row evaluation
+		if fe3, err3 := c03Parse(expr, mode); err3 == nil {
+			var folded kvql.Expression
+			func() {
+				defer func() { recover() }()
+				eo := kvql.ExpressionOptimizer{Root: fe3}
+				folded = eo.Optimize()
+			}()
+			if folded != nil {
+				fvals, fberr, fbpn := execBatch(folded, chunk, false)
+				switch {
+				case fbpn != "":
+					allRowOk := true
+					for i := range chunk {
+						if rowBad[i] != "" {
+							allRowOk = false
+						}
+					}
+					if allRowOk {
+						bad = "batch evaluation of the constant-folded expression panics where row evaluation returns values"
+						rp.What = "panic: " + fbpn
+					}
+				case fberr == nil && len(fvals) == len(chunk):
+					for i := range chunk {
+						if rowBad[i] != "" {
+							continue // folding may remove a failing operand (C04 speaks of pairs on which the original evaluates)
+						}
+						if canonCol(fvals[i]) != rowCanon[i] {
+							bad = "batch evaluation of the constant-folded expression gives other content than row evaluation of the expression"
+							rp.AtPair = fmt.Sprintf("%q=%q", chunk[i][0], chunk[i][1])
+							rp.RowObs, rp.BatObs = rowCanon[i]+rowBad[i], canonCol(fvals[i])
+							break
+						}
+					}
+				}
+				e.count("folded_batch_checked")
+			}
+		}
+	}
 	e.count(fmt.Sprintf("chunk_len=%d", len(chunk)))
 	switch {
 	case bpn != "":
@@ -680,6 +720,11 @@ func runC03(c *runCtx) error {
 		for _, a := range []string{"0", "1", "strlen(key)"} {
 			for _, b := range []string{"0", "2", "100", "int(value)"} {
 				c03ExprCase(e, fmt.Sprintf("substr(%s, %s, %s)", t, a, b), 0, c03Pairs, "fn=substr")
+			}
+		}
+		for _, a := range []string{"0 - 3", "1 - 2", "0 - int(value)"} { // literals only the folder can build
+			for _, b := range []string{"2", "0 - 1"} {
+				c03ExprCase(e, fmt.Sprintf("substr(%s, %s, %s)", t, a, b), 0, c03Pairs, "fn=substr/computed-position")
 			}
 		}
 		c03ExprCase(e, fmt.Sprintf("%s in ('a', '12', key)", t), 0, c03Pairs, "in-list")
